@@ -59,6 +59,21 @@ def KeyUse.seal (u : KeyUse) (c : CipherId) (k : Key) (pt : Bytes) : KeyUse × P
   let p := encrypt c k u.next pt
   ({ next := u.next + 1, made := u.made ++ [p] }, p)
 
+/-- The third cipher (X25519 through the age format, shared folders): the age ciphertext is
+self-contained (recipients, payload, MAC); the pack's nonce field is random filler that
+`x25519::decrypt` never reads. -/
+structure AgePack where
+  nonceField : Bytes
+  recipients : List Nat            -- identities the file key was wrapped for
+  pt : Bytes
+deriving DecidableEq, Repr
+
+def encryptAge (nonceField : Bytes) (recipients : List Nat) (pt : Bytes) : AgePack :=
+  { nonceField := nonceField, recipients := recipients, pt := pt }
+
+def decryptAge (identity : Nat) (p : AgePack) : Option Bytes :=
+  if p.recipients.contains identity then some p.pt else none
+
 /-- `AccessPoint`: the vault's parameters, its sealed meta data and the key installed by the
 last successful `unlock` (none = locked). -/
 structure AccessPoint where
